@@ -276,7 +276,8 @@ PROPS = {
         "technique": "property-based testing: generated queue programs + generated schedules vs linearizability checker (FIFO spec) and drain conservation",
         "rule": "case = queue configuration (michael_scott / ramalhete with 1-3 entries per node and 0-2 pop retries / nikolaev with 1-4 "
                 "entries per node) x element type (tracked value, unique_ptr, raw pointer, uint32) x reclaimer x program (prefix of up to 12 "
-                "sequential pushes/pops, 2-4 threads x up to 6 push/try_pop/pop operations, drain in 7 of 8 cases) x generated schedule. "
+                "sequential pushes/pops, 2-4 threads x up to 6 push/try_pop/pop operations, drain in 7 of 8 cases; in half of the cases all threads or the first thread run inside "
+                "one region_guard of the reclaimer) x generated schedule x allocator mode (quarantine, or address reuse on every second worker). "
                 "Oracle: Wing-Gong linearizability search against the FIFO specification (pop-empty only on the empty state), element "
                 "lifecycle registry, quarantine allocator, xenium's assertions. Non-trivial: operations of different threads overlap AND a "
                 "node was allocated inside the concurrent part. Distinct: program + history (ids and results).",
@@ -291,7 +292,7 @@ PROPS = {
         "level_note": "Trusted: runtime, checker, specification encoding; SC interleavings only here.",
         "technique": "property-based testing: generated bounded-queue programs + schedules vs linearizability checker (bounded FIFO spec)",
         "rule": "case = vyukov_bounded_queue (size 2/4/8; strong, weak and default operations mixed) or nikolaev_bounded_queue (requested "
-                "capacity 1,2,3,4,5,8, rounded up) x element type x program (prefix of up to 18 operations so that the ring wraps, 2-4 threads "
+                "capacity 1,2,3,4,5,8, rounded up; more threads than slots included, see known finding F23) x element type x program (prefix of up to 18 operations so that the ring wraps, 2-4 threads "
                 "x up to 6 operations, drain with strong pops) x generated schedule. Oracle: linearizability against the bounded FIFO "
                 "specification, lifecycle registry, quarantine allocator. Non-trivial: a full/empty verdict was returned while another "
                 "operation overlapped AND more values were accepted than the capacity (ring wrapped). Distinct: program + history.",
@@ -339,7 +340,8 @@ PROPS = {
                       "present'; traversal yields are encoded as lookups that may take effect anywhere between traversal begin and the yield.",
         "technique": "property-based testing: generated set/map programs + schedules vs linearizability checker (set/map spec with value identity), final iteration vs model",
         "rule": "case = container configuration (list based set with less/greater comparator; hash map with 1/2/4 buckets, identity / "
-                "constant / 2-valued / order-reversing hash, memoize_hash on/off, custom map_to_bucket) x reclaimer x program (prefix, 1-3 "
+                "constant / 2-valued / order-reversing hash, memoize_hash on/off, custom map_to_bucket; int keys or a key type whose moved-from "
+                "state is observable) x reclaimer x allocator mode (quarantine / address reuse) x optional region_guard around whole threads x program (prefix, 1-3 "
                 "updater threads x up to 6 operations from emplace / emplace_or_get / get_or_emplace / get_or_emplace_lazy / operator[] / "
                 "erase(key) / find / contains / find+erase(iterator), optionally a traversing thread) over 3-6 keys x generated schedule; "
                 "plus sequential cases of 8-40 operations. Oracle: Wing-Gong linearizability search incl. the final full iteration which "
